@@ -109,12 +109,16 @@ func (e CBC) Decrypt(key interface{}, ciphertextEl *etree.Element) ([]byte, erro
 		return nil, err
 	}
 
-	if len(ciphertext) < block.BlockSize() {
+	// the cipher value is the IV followed by one or more whole blocks
+	if len(ciphertext) < 2*block.BlockSize() {
 		return nil, errors.New("ciphertext too short")
 	}
+	if len(ciphertext)%block.BlockSize() != 0 {
+		return nil, errors.New("ciphertext is not a multiple of the block size")
+	}
 
-	iv := ciphertext[:aes.BlockSize]
-	ciphertext = ciphertext[aes.BlockSize:]
+	iv := ciphertext[:block.BlockSize()]
+	ciphertext = ciphertext[block.BlockSize():]
 
 	mode := cipher.NewCBCDecrypter(block, iv)
 	plaintext := make([]byte, len(ciphertext))
